@@ -26,6 +26,15 @@ CHECKS = {
         note="walk_outcomes assumes the walk draws randomness only via numpy.random.permutation; if that changes the sub-check labels "
              "itself unavailable (no verdict) and the seed-sampled sub-checks remain. Exceptions from dinucleotide_shuffle are permitted "
              "rejections per the statement and are counted."),
+    "C10": dict(
+        technique="property-based testing (Hypothesis) against a Python string-edit model of substitutions/deletions/insertions + exhaustive small-scope enumeration",
+        category="exploration", design_ref="DESIGN.md §3 C10",
+        text="The tensors that reach func are captured (echo func; predict on an exact per-position integer coder with a per-example "
+             "extra argument) and compared with a string-level model: every subset of <=3 deleted positions per example for B<=2 and "
+             "L<=6/7/8 on all-distinct-character sequences with both trim sides, every <=2 insertion coordinates, and random batches "
+             "(B<=4, L<=14) of all three variant kinds incl. duplicate rows and invalid lists that must raise.",
+        note="Indices are non-negative; insertion coordinates 0..L-1 distinct within an example (coordinate L is ambiguous and not "
+             "generated); example indices in range; no conflicting substitutions; at least one position survives."),
     "C15": dict(
         technique="property-based testing (Hypothesis) with a string round-trip / direct-slicing oracle + exhaustive small-scope enumeration",
         category="exploration", design_ref="DESIGN.md §3 C15",
